@@ -655,13 +655,16 @@ func checkC15(tier, replay string) int {
 			ctx.Sample(map[string]any{"case": c.Label, "must_refuse": mustRefuse, "target_ran": ran, "sandbox_exit": r.Exit, "probe_events": len(sent)})
 		}
 	})
+	if replay == "" {
+		ctx.Cov["installed_programs_compared_with_the_compiled_policy"] = c15InstalledPrograms(ctx, a, sandbox, scratch)
+	}
 	ctx.Cov["evaluations"] = runs + probes
 	ctx.Cov["distinct_nontrivial"] = len(cases)
 	ctx.Cov["sandbox_runs"] = runs
 	ctx.Cov["runs_in_which_the_target_started"] = ranTarget
 	ctx.Cov["runs_that_must_be_refused"] = refused
 	ctx.Cov["probe_events_observed_by_the_target"] = probes
-	ctx.Cov["rule"] = "the built cmd/sandbox binary is run with a probe target (a separate program that first appends a marker line, then issues probe syscalls for every partition cell of the policy) on: 11 base policy files (one listing a syscall twice with entries for other syscalls in between and a three-condition list, one spelling all eight operations and the actions in non-canonical letter case, one whose first group ends with a conditional entry for a syscall the second group names unconditionally) (incl. two under which execve is not allowed: no target can be started) whole (root / uid 65534 / with -no-new-privs=false / non-existent target / nested inside an outer sandbox whose policy answers errno to seccomp(2), so that the kernel refuses the filter; under a tracer that answers every seccomp(2) call itself - with a positive result, which is how a refused thread-sync is reported, or with ESRCH / ENOMEM / EINVAL / EACCES / EFAULT - so that nothing is installed), every line prefix and every byte prefix inside the first and last rule (thorough: every byte prefix), 13 defect kinds per base plus names, actions and defaults written as references to environment variables that are set in every run (${VAR}, ${VAR:default}, $VAR, %{VAR}), an unknown name, and two names that only other architectures' tables have, at every position where a syscall name stands, JSON renderings with operands that need all 64 bits (unknown action/default/syscall/operation, wrong key, no syscalls, non-YAML, tab indentation, empty, argument 6 / -1, non-numeric value, duplicate name), a policy compiling to > 4096 instructions, ten nested sandbox commands with a 4.0k-instruction policy (the kernel refuses one of them with ENOMEM), a policy whose first group needs long jumps (70 conditional entries) followed by a second group, files of 4 KiB to 1 MiB in which a comment block pushes the last group to byte offset L-1, L, L+1 for L in {4096, ..., 65536, 131072, 1 MiB}, a missing file (also a relative and the default name that exist next to the command's executable and in HOME, but not in the working directory) and a directory; the same bytes are loaded by the harness through ucfg: if that fails, the policy is invalid or the kernel must refuse, the run must exit non-zero with no marker; otherwise the marker exists and the target's observations equal the reference decisions of the policy the file denotes"
+	ctx.Cov["rule"] = "the built cmd/sandbox binary is run with a probe target (a separate program that first appends a marker line, then issues probe syscalls for every partition cell of the policy) on: 11 base policy files (one listing a syscall twice with entries for other syscalls in between and a three-condition list, one spelling all eight operations and the actions in non-canonical letter case, one whose first group ends with a conditional entry for a syscall the second group names unconditionally) (incl. two under which execve is not allowed: no target can be started) whole (root / uid 65534 / with -no-new-privs=false / non-existent target / nested inside an outer sandbox whose policy answers errno to seccomp(2), so that the kernel refuses the filter; under a tracer that answers every seccomp(2) call itself - with a positive result, which is how a refused thread-sync is reported, or with ESRCH / ENOMEM / EINVAL / EACCES / EFAULT - so that nothing is installed), every line prefix and every byte prefix inside the first and last rule (thorough: every byte prefix), 13 defect kinds per base plus names, actions and defaults written as references to environment variables that are set in every run (${VAR}, ${VAR:default}, $VAR, %{VAR}), an unknown name, and two names that only other architectures' tables have, at every position where a syscall name stands, JSON renderings with operands that need all 64 bits (unknown action/default/syscall/operation, wrong key, no syscalls, non-YAML, tab indentation, empty, argument 6 / -1, non-numeric value, duplicate name), a policy compiling to > 4096 instructions, ten nested sandbox commands with a 4.0k-instruction policy (the kernel refuses one of them with ENOMEM), a policy whose first group needs long jumps (70 conditional entries) followed by a second group, files of 4 KiB to 1 MiB in which a comment block pushes the last group to byte offset L-1, L, L+1 for L in {4096, ..., 65536, 131072, 1 MiB}, a missing file (also a relative and the default name that exist next to the command's executable and in HOME, but not in the working directory) and a directory; for four files that allow every syscall of the table by name (so that the default action decides nothing the command needs) - default_action omitted, allow, errno, kill_process - the program the command hands to seccomp(2), read from a tracer's decoding, equals the program compiled from the policy the file denotes; the same bytes are loaded by the harness through ucfg: if that fails, the policy is invalid or the kernel must refuse, the run must exit non-zero with no marker; otherwise the marker exists and the target's observations equal the reference decisions of the policy the file denotes"
 	ctx.Assumptions = []string{"a truncated file that still parses is a different valid policy and is judged as such", "probe syscalls ignore arguments", "fault points before exec are realised through inputs (file defects, kernel refusals), not by interrupting the sandbox process"}
 	if replay != "" {
 		return finishReplay(ctx)
@@ -682,4 +685,106 @@ func classOf(label string) string {
 		return k
 	}
 	return label
+}
+
+// c15InstalledPrograms: "only under the loaded policy" includes the parts of the policy that no probe of the target can
+// see without dying - above all the default action when it is the zero action (kill_thread, what a file that omits
+// default_action denotes). The files allow every syscall of the table by name, the command runs /bin/true under strace,
+// and the sock_filter array it passes to seccomp(2) is compared with the program compiled from the same bytes.
+func c15InstalledPrograms(ctx *evid.Ctx, a *refsem.Arch, sandbox, scratch string) int {
+	if !straceWorks() {
+		ctx.Capped("strace cannot trace here: installed programs not compared")
+		return 0
+	}
+	trueBin := "/bin/true"
+	if _, err := os.Stat(trueBin); err != nil {
+		trueBin = "/usr/bin/true"
+	}
+	var names strings.Builder
+	for _, n := range a.SortedNames() {
+		if _, ok := a.Info.SyscallNames[n]; ok && n != "getsid" {
+			names.WriteString("    - " + n + "\n")
+		}
+	}
+	n := 0
+	for _, def := range []string{"", "  default_action: allow\n", "  default_action: errno\n", "  default_action: kill_process\n"} {
+		text := "seccomp:\n" + def + "  syscalls:\n  - action: allow\n    names:\n" + names.String() + "  - action: errno\n    names:\n    - getsid\n"
+		rep := map[string]any{"installed_program": true, "default_action_line": strings.TrimSpace(def)}
+		p, err := loadThroughConfigPath([]byte(text))
+		if err != nil {
+			ctx.Capped("the all-names policy file does not load in the harness: " + err.Error())
+			continue
+		}
+		insts, cerr, pan := engine.Compile(a, p, false)
+		if cerr != nil || pan != nil {
+			ctx.Capped(fmt.Sprintf("the all-names policy does not compile: %v %v", cerr, pan))
+			continue
+		}
+		want, _ := engine.Raw(insts)
+		dir, _ := os.MkdirTemp(scratch, "inst")
+		pol, trace := filepath.Join(dir, "policy.yml"), filepath.Join(dir, "trace.txt")
+		os.WriteFile(pol, []byte(text), 0o644)
+		r := runCmd(60*time.Second, []string{"PATH=/usr/bin:/bin"}, dir, "strace", "-f", "-v", "-X", "raw", "-s", "1000000", "-e", "trace=seccomp", "-o", trace, sandbox, "-policy", pol, trueBin)
+		tb, _ := os.ReadFile(trace)
+		os.RemoveAll(dir)
+		var got []cbpf.Insn
+		found := false
+		for _, l := range strings.Split(string(tb), "\n") {
+			i := strings.Index(l, "seccomp(0x1, ")
+			j := strings.Index(l, "filter=[")
+			if i < 0 || j < 0 {
+				continue
+			}
+			found, got = true, nil
+			body := l[j+len("filter=["):]
+			if k := strings.Index(body, "]}"); k >= 0 {
+				body = body[:k]
+			}
+			for _, item := range strings.Split(body, "), ") {
+				item = strings.TrimSuffix(strings.TrimSpace(item), ")")
+				open := strings.Index(item, "(")
+				if open < 0 {
+					continue
+				}
+				var f []uint64
+				for _, part := range strings.Split(item[open+1:], ",") {
+					var v uint64
+					for _, t := range strings.Split(strings.TrimSpace(part), "|") {
+						var x uint64
+						if _, err := fmt.Sscanf(strings.TrimSpace(t), "0x%x", &x); err != nil {
+							fmt.Sscanf(strings.TrimSpace(t), "%d", &x)
+						}
+						v |= x
+					}
+					f = append(f, v)
+				}
+				switch {
+				case strings.HasPrefix(item, "BPF_STMT") && len(f) == 2:
+					got = append(got, cbpf.Insn{Op: uint16(f[0]), K: uint32(f[1])})
+				case strings.HasPrefix(item, "BPF_JUMP") && len(f) == 4:
+					got = append(got, cbpf.Insn{Op: uint16(f[0]), K: uint32(f[1]), Jt: uint8(f[2]), Jf: uint8(f[3])})
+				}
+			}
+		}
+		if !found || len(got) == 0 {
+			ctx.Capped(fmt.Sprintf("no seccomp(2) call with a decoded program in the trace of the sandbox command (exit %d)", r.Exit))
+			continue
+		}
+		n++
+		same := len(got) == len(want)
+		first := -1
+		for i := 0; same && i < len(want); i++ {
+			if got[i] != want[i] {
+				same, first = false, i
+			}
+		}
+		if !same {
+			what := fmt.Sprintf("lengths %d and %d", len(got), len(want))
+			if first >= 0 {
+				what = fmt.Sprintf("instruction %d is %+v, compiled from the file's policy it is %+v", first, got[first], want[first])
+			}
+			ctx.Violation("C15:installed-program-differs:"+strings.TrimSpace(def), fmt.Sprintf("policy file with every table name allowed and default_action line %q: the program the sandbox command passes to seccomp(2) differs from the one compiled from the policy the file denotes (%s)", strings.TrimSpace(def), what), rep)
+		}
+	}
+	return n
 }
